@@ -13,6 +13,8 @@
 #include "v_spec.h"
 #include "lltdAutomata.h"
 
+#include "v_nocheck_push.h"
+
 /* =============================== C13: RepeatBand =============================================== */
 #define BAND_OK(b)      ((b)->Ni >= 45u && (b)->Ni <= 10000u)
 #define PRE_band(b)     ((b) == NULL || (V_RW_OK((b), sizeof(band_state)) && BAND_OK(b)))
@@ -430,5 +432,6 @@ __CPROVER_assigns(g_led;
 __CPROVER_ensures(g_led.hello_periodic <= __CPROVER_old(g_led.hello_periodic) + 1) /*@C12.at-most-one*/
 __CPROVER_ensures(sessions == NULL || ST_WF(sessions)) /*@C16.tick-wf*/
 ;
+#include "v_nocheck_pop.h"
 
 #endif
